@@ -61,6 +61,11 @@ func (m ClientState) Validate() error {
 	if m.ChainId > math.MaxInt64 {
 		return sdkerrors.Wrap(ErrInvalidGenesisBlock, "chain id must fit into an int64")
 	}
+	// the client's first consensus state is stored at this height, and the xibc genesis validation
+	// does not accept a consensus state at height 0-0
+	if m.Header.Height.IsZero() {
+		return sdkerrors.Wrap(ErrInvalidGenesisBlock, "height cannot be zero")
+	}
 	return m.Header.ValidateBasic()
 }
 
